@@ -19,6 +19,7 @@ package main
 // names with the argument paths at the call site (downwards) or the reverse (upwards).
 
 import (
+	"fmt"
 	"sort"
 	"strconv"
 	"strings"
@@ -571,7 +572,7 @@ func newDeepWalk(visit func(in ssa.Instruction, fr *frame) bool) *deepWalk {
 func mkFrame(cx *dctx, via map[ssa.CallInstruction]*ssa.Return, up *frame, upCall ssa.CallInstruction) *frame {
 	var parts []string
 	for c, r := range via {
-		parts = append(parts, c.(ssa.Value).Name()+">"+fmtInt(r.Block().Index))
+		parts = append(parts, fmt.Sprintf("%p>%d", c, r.Block().Index))
 	}
 	sortStrings(parts)
 	k := cx.key + "{" + strings.Join(parts, ",") + "}"
@@ -590,7 +591,7 @@ func frameFor(top *ssa.Function, chain []ssa.CallInstruction) *frame {
 	fr := topFrame(top)
 	for _, cs := range chain {
 		h := cs.Common().StaticCallee()
-		cx := &dctx{fn: h, res: downRes(fr.cx.res, cs), parent: fr.cx, site: cs, depth: fr.cx.depth + 1, key: fr.cx.key + "/" + cs.(ssa.Value).Name() + ":" + h.Name()}
+		cx := &dctx{fn: h, res: downRes(fr.cx.res, cs), parent: fr.cx, site: cs, depth: fr.cx.depth + 1, key: fr.cx.key + "/" + fmt.Sprintf("%p", cs) + ":" + h.Name()}
 		fr = mkFrame(cx, nil, fr, cs)
 	}
 	return fr
@@ -722,7 +723,7 @@ func (dw *deepWalk) run(fr *frame, b *ssa.BasicBlock, i int) {
 			if onStack {
 				continue
 			}
-			cx := &dctx{fn: h, res: downRes(fr.cx.res, x), parent: fr.cx, site: x, depth: fr.cx.depth + 1, key: fr.cx.key + "/" + x.(ssa.Value).Name() + ":" + h.Name()}
+			cx := &dctx{fn: h, res: downRes(fr.cx.res, x), parent: fr.cx, site: x, depth: fr.cx.depth + 1, key: fr.cx.key + "/" + fmt.Sprintf("%p", x) + ":" + h.Name()}
 			dw.run(mkFrame(cx, nil, fr, x), h.Blocks[0], 0)
 			return // the continuation after the call is explored from the helper's returns
 		}
